@@ -18,8 +18,13 @@ type Shape struct {
 	Extra map[string]string
 }
 
+const (
+	draft07   = "http://json-schema.org/draft-07/schema#"
+	draft2020 = "https://json-schema.org/draft/2020-12/schema"
+)
+
 func jsDoc(defs string) string {
-	return `{"$schema":"http://json-schema.org/draft-07/schema#","$ref":"#/definitions/Root","definitions":{` + defs + `}}`
+	return `{"$schema":"` + draft07 + `","$ref":"#/definitions/Root","definitions":{` + defs + `}}`
 }
 
 func oaDoc(schemas string) string {
@@ -54,7 +59,12 @@ var jsonDefaults = []struct{ name, v string }{
 
 func jsonSchemaShapes() []Shape {
 	var out []Shape
-	add := func(name, defs string) { out = append(out, Shape{Format: "jsonschema", Name: name, Doc: jsDoc(defs)}) }
+	// every shape under two drafts: draft-07 and 2020-12 differ in what their
+	// metaschemas let through (an empty `enum`, tuple `items`, ...)
+	add := func(name, defs string) {
+		out = append(out, Shape{Format: "jsonschema", Name: name, Doc: jsDoc(defs)})
+		out = append(out, Shape{Format: "jsonschema", Name: name + "@2020-12", Doc: strings.Replace(jsDoc(defs), draft07, draft2020, 1)})
+	}
 	raw := func(name, doc string) { out = append(out, Shape{Format: "jsonschema", Name: name, Doc: doc}) }
 	both := func(name, t string, more ...string) {
 		add(name+"/field", jsField(t, more...))
